@@ -2,9 +2,10 @@
 # ./run.sh C13_periodic_wrap   (needs /repo/_build)
 set -e
 cd "$(dirname "$0")"
-B=/repo/_build
+R=${REPLAY_REPO:-/repo}
+B=$R/_build
 out=$(mktemp -d)
-g++ -std=gnu++17 -O0 -g -I/repo/tools/include -I/repo/csg/include -I$B/tools/include -I$B/tools/include/votca/tools \
+g++ -std=gnu++17 -O0 -g -march=native -I$R/tools/include -I$R/csg/include -I$B/tools/include -I$B/tools/include/votca/tools \
   -I$B/csg/src/libcsg -isystem /usr/include/eigen3 $1.cc -o $out/a.out -L$B/tools/src/libtools -L$B/csg/src/libcsg \
   -lvotca_csg -lvotca_tools -lboost_program_options -lboost_filesystem -lboost_system -Wl,-rpath,$B/tools/src/libtools -Wl,-rpath,$B/csg/src/libcsg
 shift
